@@ -190,6 +190,10 @@ func (wt writeTxn) Create(v interface{}) error {
 	if vv.Type() != t {
 		return fmt.Errorf("create value is of type %s, expected type %s", vv.Type().String(), t.String())
 	}
+	// The store does not generate IDs
+	if wt.id == "" {
+		return errors.New("cannot create value with an empty ID")
+	}
 
 	err := wt.st.DB.Update(func(txn *badger.Txn) error {
 		// Validate that the resource doesn't exist
@@ -396,7 +400,8 @@ func (st *Store) Init(cb func(add func(id string, v interface{})) error) error {
 func (st *Store) getValue(txn *badger.Txn, key []byte) (interface{}, error) {
 	item, err := txn.Get(key)
 	if err != nil {
-		if err == badger.ErrKeyNotFound {
+		// An empty key (empty ID without prefix) is never found
+		if err == badger.ErrKeyNotFound || err == badger.ErrEmptyKey {
 			return nil, res.ErrNotFound
 		}
 		return nil, err
